@@ -15,6 +15,14 @@ the `inspect.signature` of the real callable (`SIGKIND`, Dispatch/Sig.lean, tran
 theorems C07_factory_kind / C07_factory_receives).  Shapes whose second parameter is `*args` / `**kwargs` are recorded
 finding F61 (code and documentation part there; witness theorem C07_factory_kind_F61_witness).
 Raising predicates raise a variety of exception classes (`dispatch_common.PRED_EXCEPTIONS`): each means "does not accept".
+
+STORE histories: the converter the rule is checked on need not come from a constructor -- `copy()` / `deepcopy` /
+`copy(detailed_validation=..)` / `copy(unstruct_strat=..)` steps (also a copy of a copy) sit anywhere in the history, with
+registrations on the source and on the copies before and after.  The history of a copy = the registrations its source had
+received when the copy was taken + its own (`dispatch_common.store_view`, written from the statement); every converter of
+the store is probed on every universe type (the `Annotated[T, ...]` spellings included: they are resolved by the `is_annotated`
+factory of the converter the hook is built for).  Model: the same store history through RUNHIST (`copyOf`), and the
+right-hand side of theorem C07_precedence_store through SPECSTORE (`origins` + `spec`).
 """
 import itertools
 import json
@@ -62,37 +70,53 @@ def gen_cfg(rng):
 
 
 def run_case(drv, cc, preds, history, want_spec=True):
-    """Returns list of (dir, type key, I, M, S, P, terms) for every probe."""
+    """Returns list of rows {conv, dir, ty, I, M, P, terms} for every probe of every converter of the store that
+    `history` (registrations and copy steps) builds from one converter constructed as `cc`."""
     impl = Impl(preds)
     impl.make(cc)
-    # uses of the converter between the registrations (results ignored): "after any sequence of registrations" includes
+    cfgs, regs_of = dc.store_view(history, [cc])
+    has_copy = len(cfgs) > 1
+    # uses of the converters between the registrations (results ignored): "after any sequence of registrations" includes
     # sequences in which the types were already used; derived from the history text, so a replay repeats them
     wr = random.Random(zlib.crc32(repr([dc.describe(o) for o in history]).encode()))
     for op in history:
         impl.do(op)
         if wr.random() < 0.3:
-            for o in dc.probe_ops(0, wr.choice(DIRS), cc):
+            j = wr.randrange(len(impl.convs))
+            for o in dc.probe_ops(j, wr.choice(DIRS), impl.cfgs[j]):
                 impl.do(o)
     full = list(history)
-    for d in DIRS:
-        full += dc.probe_ops(0, d, cc)
+    for j, cj in enumerate(cfgs):
+        for d in DIRS:
+            full += dc.probe_ops(j, d, cj)
     res_i = {}
     for n in range(len(history), len(full)):
         res_i[n] = impl.do(full[n])
     out = []
+    fraise = dc.fraise_of(history)
     for d in DIRS:
-        mt, ctx = dc.run_model(drv, full, d, [cc], preds)
-        keys = [full[n]["ty"] for n in sorted(mt)]
-        st = dict(zip(sorted(mt), dc.run_spec(drv, history, d, cc, preds, keys)[0])) if want_spec else {}
+        mt, _ = dc.run_model(drv, full, d, [cc], preds)
+        ctxs = [dc.ModelCtx(cj, d, preds) for cj in cfgs]
+        for c in ctxs:
+            c.fraise = fraise
+        st = {}
+        if want_spec and not has_copy:   # theorem C07_precedence: `spec` over the history itself
+            keys = [full[n]["ty"] for n in sorted(mt)]
+            st = dict(zip(sorted(mt), dc.run_spec(drv, history, d, cc, preds, keys)[0]))
+        elif want_spec:                  # theorem C07_precedence_store: `spec` over the origin of every converter
+            rows = [(j, [full[n]["ty"] for n in sorted(mt) if full[n]["conv"] == j]) for j in range(len(cfgs))]
+            ss = dc.run_spec_store(drv, history, d, [cc], preds, rows)
+            st = {n: ss[(full[n]["conv"], full[n]["ty"])] for n in mt}
         for n in sorted(mt):
             op = full[n]
-            key = op["ty"]
-            sample = Impl.sample(cc, d, U.types[key])
+            key, j = op["ty"], op["conv"]
+            ctx = ctxs[j]
+            sample = Impl.sample(cfgs[j], d, U.types[key])
             m_term = dc.norm_term(ctx, mt[n])
-            p_term = dc.norm_term(ctx, dc.ref_choose(history, d, cc, preds, key))
+            p_term = dc.norm_term(ctx, dc.ref_choose(regs_of[j], d, cfgs[j], preds, key, _ctx=ctx))
             s_term = st.get(n)
-            lit = dc.norm_term(ctx, dc.ref_choose(history, d, cc, preds, key, literal=True))
-            out.append({"dir": d, "ty": key, "I": res_i[n], "M": dc.expect(ctx, m_term, key, sample),
+            lit = dc.norm_term(ctx, dc.ref_choose(regs_of[j], d, cfgs[j], preds, key, _ctx=ctx, literal=True))
+            out.append({"conv": j, "dir": d, "ty": key, "I": res_i[n], "M": dc.expect(ctx, m_term, key, sample),
                         "P": dc.expect(ctx, p_term, key, sample), "m_term": m_term, "p_term": p_term,
                         "s_term": s_term, "ctx": ctx, "literal_differs": lit != p_term})
     dc.prune_linecache()
@@ -102,6 +126,40 @@ def run_case(drv, cc, preds, history, want_spec=True):
         out.append({"regerr": "an option attribute of the converter was written by use: " + w})
     run_case.raised = impl.raised
     return out
+
+
+def gen_copy_step(rng, src, cc):
+    """a copy step for a precedence history: plain `copy()`, `copy.deepcopy`, or `copy(..)` overriding an option (the
+    validation mode: dispatch-neutral; the unstructure strategy: changes the built-in hooks of attrs classes)"""
+    r = rng.random()
+    if r < 0.4:
+        return dc.copy_op(src, cc, {}, "copy")
+    if r < 0.7:
+        return dc.copy_op(src, cc, {}, "deepcopy")
+    if r < 0.9:
+        return dc.copy_op(src, cc, {"detailed_validation": rng.random() < 0.5})
+    return dc.copy_op(src, cc, {"unstruct_strat": rng.choice(["astuple", "asdict"])})
+
+
+def gen_store_history(rng, cc, preds, max_ops):
+    """registrations on the converters of a growing store with up to two copy steps (source = any converter that exists)
+    at random positions: registrations before the copy, after it on the source, after it on the copy, on a copy of a copy"""
+    cnt = itertools.count(1)
+    cfgs = [cc]
+    history = []
+    n_ops = rng.randint(2, max_ops)
+    copy_at = sorted(rng.sample(range(n_ops), min(n_ops, rng.choice([1, 1, 2]))))
+    for i in range(n_ops):
+        if i in copy_at:
+            src = rng.randrange(len(cfgs))
+            step = gen_copy_step(rng, src, cfgs[src])
+            history.append(step)
+            cfgs.append(ConvCfg.from_json(step["cfg"]))
+        else:
+            j = rng.randrange(len(cfgs))
+            mine = [o for o in history if o.get("conv") == j]
+            history.append(dc.gen_reg(rng, j, rng.choice(DIRS), preds, lambda: next(cnt), prev=mine, f61=0.04))
+    return history
 
 
 def abc_stream(chk, n_cases):
@@ -201,14 +259,21 @@ def _agree(a, b):
 def check_case(chk, drv, cc, preds, history, corr_fail, stats):
     case = {"cfg": cc.to_json(), "preds": dc.preds_to_json(preds), "history": history}
     rows = run_case(drv, cc, preds, history)
-    regs = [op for op in history]
+    regs = [op for op in history if op["op"] != "copy"]
     key = cc.name() + json.dumps(case["preds"], sort_keys=True) + "|".join(dc.describe(o) for o in history)
     chk.count(key, nontrivial=len(regs) > 0,
               sample={"cfg": cc.name(), "history": [dc.describe(o) for o in history][:12],
                       "probe": U.types[rows[0]["ty"]].name, "impl": repr(rows[0]["I"])[:120]})
     chk.note("cfg:" + cc.name().split("/")[0], "len:%02d" % len(history))
     shape_of = {}
+    n_conv = 1
     for op in history:
+        if op["op"] == "copy":
+            chk.note("copy:" + op.get("how", "copy") + (":overrides" if op.get("kwargs") else "") + (":of-a-copy" if op["src"] else ""))
+            n_conv += 1
+            continue
+        if n_conv > 1:
+            chk.note("reg-after-copy:on-" + ("source" if any(o["op"] == "copy" and o["src"] == op["conv"] for o in history) else "copy"))
         chk.note("reg:" + op["op"] + (":ext" if op.get("extended") else "") + (":deco" if op.get("form") == "deco" else "")
                  + ":" + op["dir"])
         if op["op"] == "hook":
@@ -230,12 +295,14 @@ def check_case(chk, drv, cc, preds, history, corr_fail, stats):
             chk.note("outcome:err")
         if r["literal_differs"]:
             chk.note("note:union-structure-hook-ranked-below-older-or-newer-user-predicate")
-        where = f"[{cc.name()} {r['dir']} probe={tn} history={' ; '.join(dc.describe(o) for o in history)}]"
+        where = f"[{cc.name()} c{r['conv']} {r['dir']} probe={tn} history={' ; '.join(dc.describe(o) for o in history)}]"
+        if r["conv"]:
+            chk.note("probe-on-copy:" + ("annotated" if U.types[r["ty"]].shape == "annotated" else "other"))
         if r["I"] != r["P"]:
             p_shapes = sorted({shape_of[t] for t in term_tags(r["p_term"]) if t in shape_of})
             if chk.violation(f"C07 oracle: result {r['I']!r} is not what the documented rule selects {r['P']!r} "
                              f"(rule picks {r['p_term']!r}) {where}",
-                             dict(case, probe={"dir": r["dir"], "ty": r["ty"], "p_shapes": p_shapes})):
+                             dict(case, probe={"conv": r["conv"], "dir": r["dir"], "ty": r["ty"], "p_shapes": p_shapes})):
                 stats["oracle_fail"] += 1
             continue
         if r["I"] != r["M"] or not spec_agrees(r["ctx"], r["s_term"], r["m_term"]):
@@ -289,6 +356,30 @@ def run(chk: framework.Check):
         for combo in itertools.product([a for a in al if a["dir"] == ST][:4], repeat=4):
             history = [dict(op, tag=i + 1) for i, op in enumerate(combo)]
             check_case(chk, drv, cc, alpha_preds, history, corr_fail, stats)
+    # ---- store histories: every kind of registration before a copy step, the same kind again after it on the source / on
+    # the copy (the later one must win THERE and be invisible on the other side), every way of copying
+    n_sys = 0
+    for klass in ("Converter", "BaseConverter"):
+        for d in DIRS:
+            singles = [a for a in alphabet if a["dir"] == d] + [
+                {"op": "hook", "conv": 0, "dir": d, "ty": U.k("NA"), "form": "call"},
+                {"op": "hook", "conv": 0, "dir": d, "ty": U.k("int"), "form": "call"}]
+            for reg in singles:
+                for target in (0, 1):
+                    n_sys += 1
+                    if quick and (n_sys + chk.seed) % 2:
+                        continue
+                    cc = ConvCfg(klass=klass)
+                    step = dc.copy_op(0, cc, {}, ("copy", "deepcopy")[n_sys % 2])
+                    history = [dict(reg, tag=1), step, dict(reg, conv=target, tag=2)]
+                    if n_sys % 3 == 0:   # ... and a copy of the copy taken afterwards
+                        history.append(dc.copy_op(1, cc, {}, "copy"))
+                        history.append(dict(reg, conv=2 - target, tag=3))
+                    check_case(chk, drv, cc, alpha_preds, history, corr_fail, stats)
+    for _ in range(300 if quick else 2500):
+        cc = gen_cfg(rng)
+        preds = dc.gen_preds(rng)
+        check_case(chk, drv, cc, preds, gen_store_history(rng, cc, preds, 10 if quick else 16), corr_fail, stats)
     # ---- random histories
     n_rand = 1000 if quick else 12000
     max_ops = 12 if quick else 20
@@ -304,11 +395,13 @@ def run(chk: framework.Check):
         for case, r, where in corr_fail[:5]:
             chk.violation("correspondence corr:C07:RUNHIST broken (theorems C07_* no longer tied to the code): "
                           f"impl={r['I']!r} model={r['M']!r} model-term={r['m_term']!r} spec-term={r['s_term']!r} {where}",
-                          dict(case, probe={"dir": r["dir"], "ty": r["ty"]}), found_input=False)
+                          dict(case, probe={"conv": r["conv"], "dir": r["dir"], "ty": r["ty"]}), found_input=False)
     chk.extra["rule"] = ("registration histories (class/subclass/NewType/union/predicate/factory/extended factory in every "
                          "signature shape, call and decorator forms, both directions, overlapping predicates, predicates raising "
                          "20 exception classes) x {Converter, BaseConverter} x "
-                         "{dict,tuple strategy} x fallback factories; every history probed on all universe types (also nested); "
+                         "{dict,tuple strategy} x fallback factories; store histories with copy()/deepcopy/copy(overrides) steps (also copies "
+                         "of copies) and registrations on source and copies before and after; every converter of every history "
+                         "probed on all universe types (also nested, also spelled Annotated[T, ...]); "
                          "non-trivial = at least one registration; distinct by configuration+history text")
     abc_stream(chk, 60 if quick else 600)
     chk.extra["probes"] = stats["probes"]
@@ -333,10 +426,10 @@ def replay(case):
             print("registration raised:", r["regerr"])
             rc = 1
             continue
-        if "probe" in case and (case["probe"]["dir"], case["probe"]["ty"]) != (r["dir"], r["ty"]):
+        if "probe" in case and (case["probe"].get("conv", 0), case["probe"]["dir"], case["probe"]["ty"]) != (r["conv"], r["dir"], r["ty"]):
             continue
         ok = r["I"] == r["P"]
-        print(f"probe {r['dir']} {U.types[r['ty']].name}: impl={r['I']!r} rule={r['P']!r} model={r['M']!r} -> {'holds' if ok else 'VIOLATED'}")
+        print(f"probe c{r['conv']} {r['dir']} {U.types[r['ty']].name}: impl={r['I']!r} rule={r['P']!r} model={r['M']!r} -> {'holds' if ok else 'VIOLATED'}")
         rc = rc or (0 if ok else 1)
     return rc
 
